@@ -355,6 +355,12 @@ def analyse(ck):
     # padding = appending copies of the template (push loop, or extend(repeat_with(..).take(n))); nothing else touches the vector
     pp, muts = pc.appended_copies(lambda r: P.param_path(r) == "inputs.proofs")
     okp = len(pp) == 1 and P.param_path(pp[0]["value"]) == "self.dummy_proof_template"
+    if okp and "grows_only_if" in pp[0]:
+        # `proofs.resize(n, template)` only appends when len <= n: the preflight called before it with (proofs, n, ..) rejects len > n
+        # (its own size guard is obligation public-preflight/size-guards)
+        pre_ = [e for e in pc.effects if e.raw.get("name") == "preflight_private_batch_proofs" and e.frame is pc.fr]
+        okp = (len(pre_) == 1 and P.param_path(pre_[0].args[0]) == "inputs.proofs" and P.norm(pre_[0].args[1]) == pp[0]["grows_only_if"]
+               and pc.call_ok_block(pre_[0].bb) is not None and pc.dom(pc.call_ok_block(pre_[0].bb), pp[0]["bb"]))
     ob.add({"C15"}, okp and not muts, "TERM", "public-commit/padding-appended", "public commit only appends dummy templates after the supplied inner proofs (no reordering)", pp[0]["eff"].loc if pp else pc.loc0, [e.name for e in muts])
     pre = pc.calls(lambda t: t.get("name") == "preflight_private_batch_proofs")
     fill = pc.calls(lambda t: t.get("name") == "fill_public_batch_witness")
@@ -396,7 +402,18 @@ def checks16(ck, ob):
     prog = ck.prog
     # every struct-literal construction of the three holders is dominated by a successful template verification of the stored value
     holders = {"PrivateBatchProver": ("verify_dummy_leaf_template", "dummy_proof_template"), "PublicBatchProver": ("verify_dummy_private_batch_template", "dummy_proof_template")}
-    for b in list(prog.production_bodies()):
+    def _has_literal(b_, pred):
+        return any((s_.get("r") or {}).get("k") == "agg" and s_["r"]["ak"].get("t") == "adt" and pred(s_["r"]["ak"]["adt"]) for blk_ in b_.blocks if not blk_["cleanup"] for s_ in blk_["s"])
+
+    def _expanded(b_):
+        """the body with its private helpers expanded in place (a loader / validator extracted into a helper is part of the constructor)"""
+        from . import inline as _inl
+        return _inl.expand(prog, b_, e2.private_helper(b_, e2.module_anchors(__file__)))[0]
+
+    for b0 in list(prog.production_bodies()):
+        if not _has_literal(b0, lambda a: a.rsplit("::", 1)[-1] in holders and a.startswith(AGG)):
+            continue
+        b = _expanded(b0)
         for bi, blk in enumerate(b.blocks):
             if blk["cleanup"]:
                 continue
@@ -416,7 +433,7 @@ def checks16(ck, ob):
                 det = {"stored": T.show(stored)[:120]}
                 for bb, t in vc:
                     arg0 = fr.operand_term(t["args"][0])
-                    if P.norm(arg0) == P.norm(stored) and guards.dominates_ok(b, bb, bi):
+                    if P.ok_value(arg0) == P.ok_value(stored) and guards.dominates_ok(b, bb, bi):
                         ok = True
                 ob.add({"C16"}, ok, "DOM", "ctor/%s@%s" % (name, b.path.rsplit("::", 1)[-1]), "%s{..} is built only after %s(the very template it stores) returned Ok" % (name, verifier_fn), "%s:%s" % (b.file, s.get("ln")), det)
     # CMP tables of both validators
@@ -437,6 +454,20 @@ def checks16(ck, ob):
                     # cancel (a | b, max, saturating / widened sum) — `a.wrapping_add(b)`, `a + b`, `a ^ b`, `a & b` do not count
                     for nm_ in (_zero_iff_all_zero(side) or ()):
                         fields.setdefault(nm_, []).append(g)
+        # the same comparisons as the predicate of an exists-form guard: `if let Some(..) = slots.iter().find(|s| s.a != 0 || s.b != z) { bail }`
+        for g, coll, pred in mv.exists_guards():
+            if not (g["outcome"] & {"err"}):
+                continue
+            from . import lc as _lc
+            dsc = _lc.Desc(coll)
+            if dsc.other or dsc.take is not None or dsc.range is not None or len(dsc.colls) != 1:
+                continue   # the scan must cover the whole collection (no take / skip / sub-range)
+            for d in (pred[1] if (isinstance(pred, tuple) and pred and pred[0] == "or") else (pred,)):
+                if isinstance(d, tuple) and len(d) == 4 and d[0] == "bin" and d[1] == "Ne":
+                    for side, other in ((d[2], d[3]), (d[3], d[2])):
+                        if P.const_of(other) == 0 or (P.call_name(other) or "").endswith("default"):
+                            for nm_ in (_zero_iff_all_zero(side) or ()):
+                                fields.setdefault(nm_, []).append(g)
         missing = [f for f in want if f not in fields]
         ob.add({"C16"}, not missing, "CMP", fn + "/sentinel-table", "%s rejects (Err) a template whose %s is non-zero" % (fn, ", ".join(want)), mv.loc0, {"missing": missing, "found": sorted(fields)})
         ver = mv.calls(lambda t: t.get("name") == "verify" and (t.get("impl_adt") or "").endswith("VerifierCircuitData"))
@@ -450,6 +481,21 @@ def checks16(ck, ob):
             # every Ok-returning path passes the verify success edge: the blocks defining _0 = Ok are dominated by cb
             okdefs = [bi for bi, lst in guards._zero_defs(mv.body).items() if "ok" in lst or "ok?" in lst]
             okret = bool(okdefs) and all(cfg.dominates(mv.body, cb, bi) for bi in okdefs)
+        if okv and not okret:
+            # tail form: the function returns the verifier's own Result (through map_err / context adaptors): Ok iff verify returned Ok
+            rt = P.norm(mv.fr.return_term())
+            mem = rt[2] if (isinstance(rt, tuple) and rt and rt[0] == "phi") else (rt,)
+            def is_err(m):
+                m = P.norm(m)
+                return isinstance(m, tuple) and m and (m[0] == "err" or (m[0] == "call" and m[2].endswith("::from_residual")))
+            def unwrap(m):
+                m = P.norm(m)
+                while (P.call_name(m) or "").rsplit("::", 1)[-1] in ("map_err", "context", "with_context") and m[4]:
+                    m = P.norm(m[4][0])
+                return m
+            rest = [unwrap(m) for m in mem if not is_err(m)]
+            vt = [P.norm(e.result) for e in mv.effects if e.bb == ver[0][0] and e.frame is mv.fr and e.result is not None]
+            okret = len(rest) == 1 and bool(vt) and rest[0] == vt[0]
         ob.add({"C16"}, okret, "DOM", fn + "/verify-before-ok", "%s returns Ok only after verifier.verify(template) succeeded" % fn, mv.body.loc(ver[0][0]) if ver else mv.loc0)
         parser = mv.calls(lambda t: t.get("name") == "try_from_u64_slice")
         ob.add({"C16"}, len(parser) == 1, "AGREE", fn + "/uses-shared-parser", "the sentinel fields are read through the shared public-input parser (C24's table)", mv.loc0)
@@ -475,9 +521,12 @@ def checks16(ck, ob):
     ob.add({"C16"}, set(ld) <= {PRIV + "PrivateBatchProver::new_from_bytes", AGG + "::private_batch::circuit::build::load_validated_dummy_leaf_template"}, "WMC", "load_dummy_proof-callers",
            "raw dummy-proof deserialization is only reachable from the two validating loaders", None, ld)
     # ProvingContext construction
-    for b in prog.find(AGG.replace("::", "::") + r"::aggregator::", AGG):
-        if b.d.get("derived"):
+    for b0 in prog.find(AGG.replace("::", "::") + r"::aggregator::", AGG):
+        if b0.d.get("derived"):
             continue  # #[derive(Clone)] copies an already validated context field by field
+        if not _has_literal(b0, lambda a: a.endswith("aggregator::ProvingContext")):
+            continue
+        b = _expanded(b0)
         for bi, blk in enumerate(b.blocks):
             for s in blk["s"]:
                 r = s.get("r")
@@ -486,5 +535,5 @@ def checks16(ck, ob):
                     fr = ev.frame(b)
                     stored = fr.operand_term(r["ops"][r["ak"]["fields"].index("dummy_proof_template")]) if "dummy_proof_template" in r["ak"]["fields"] else None
                     vc = [(bb, t) for bb, t in b.calls() if t.get("name") == "verify_dummy_private_batch_template"]
-                    ok = stored is not None and any(P.norm(fr.operand_term(t["args"][0])) == P.norm(stored) and guards.dominates_ok(b, bb, bi) for bb, t in vc)
+                    ok = stored is not None and any(P.ok_value(fr.operand_term(t["args"][0])) == P.ok_value(stored) and guards.dominates_ok(b, bb, bi) for bb, t in vc)
                     ob.add({"C16"}, ok, "DOM", "ctor/ProvingContext@" + b.path.rsplit("::", 1)[-1], "ProvingContext{..} stores a template only after verify_dummy_private_batch_template(it) returned Ok", "%s:%s" % (b.file, s.get("ln")))
